@@ -39,6 +39,10 @@ theorem shl_one {T : Nat} (h : T < 32) : ushl 32 1 T = some (2 ^ T) := by
 theorem lit_one : lit 1 = F32.one := by decide +kernel
 theorem lit_zero : lit 0 = F32.zero := by decide +kernel
 theorem neg_lit_one : F32.neg (lit 1) = .fin (-1) false := by decide +kernel
+theorem lit_two : lit 2 = .fin 2 false := by decide +kernel
+theorem lit_three : lit 3 = .fin 3 false := by decide +kernel
+theorem lit_four : lit 4 = .fin 4 false := by decide +kernel
+theorem lit_half : lit (1 / 2) = .fin (1 / 2) false := by decide +kernel
 theorem neg_one : F32.neg F32.one = .fin (-1) false := by decide +kernel
 
 theorem new_tie {T I : Nat} (hT : T < 32) (hI : I ≤ T) (sr : F32) :
